@@ -743,7 +743,7 @@ class Prop(Check):
     LEAN_MODULE = "TextxVerif.Props.C29"
     THEOREMS = []  # filled below
     DRIVER = "Drivers/Dot.lean"
-    QUICK_CASES = 500
+    QUICK_CASES = 450
     THOROUGH_CASES = 12000
     PROCS_THOROUGH = 4
     RULE = ("non-trivial = a string containing one of \" \\ { } | < > newline reaches an escaped hole of the export "
